@@ -222,6 +222,36 @@ fn check_search(c: &MnConfig, start: u64, window: u64, acc: &mut Acc) {
         windows.push((start, f as u64 + 1)); // ends just at it
         windows.push((start + f as u64, 1));
     }
+    // windows beyond 2^32 seeds (a count that no longer fits 32 bits): only where at least half of the
+    // seeds of the small window succeed, so that any scan order finds one at once
+    if per_seed.iter().filter(|x| x.is_some()).count() * 2 >= per_seed.len().max(1) && !per_seed.is_empty() {
+        for t in [1u64 << 32, (1u64 << 32) + 1, (1u64 << 33) + 5] {
+            acc.evals += 1;
+            match guard(|| pool_of(4).install(|| c.search(start, t))) {
+                Err(e) => {
+                    acc.violate(key, format!("search({}, {}) panicked: {}", start, t, e), replay);
+                    return;
+                }
+                Ok(None) => {
+                    acc.violate(key, format!("search({}, {}) found nothing although seeds of that range succeed", start, t), replay);
+                    return;
+                }
+                Ok(Some((s, h))) => {
+                    if s < start || s - start >= t {
+                        acc.violate(key, format!("search({}, {}) returned seed {} outside the requested range", start, t, s), replay);
+                        return;
+                    }
+                    match guard(|| c.run(s)) {
+                        Ok(Ok(h2)) if ones(&h2) == ones(&h) => acc.nontrivial += 1,
+                        _ => {
+                            acc.violate(key, format!("search({}, {}) returned seed {} with a matrix that seed does not produce", start, t, s), replay);
+                            return;
+                        }
+                    }
+                }
+            }
+        }
+    }
     for (a, t) in windows {
         let s_set: Vec<u64> = (a..a + t).filter(|s| per_seed[(*s - start) as usize].is_some()).collect();
         for threads in [1usize, 2, 4, 16] {
@@ -378,7 +408,7 @@ pub fn run(run: &Run) -> i32 {
         run,
         acc,
         Coverage {
-            rule: "MacKay-Neal: rows 2..6(8) x cols 2..10(14) x wc 1..3 x wr in {ceil(cols*wc/rows), +1, cols} x {Random, Uniform} x min girth {None, 4/6/8 with 0/5/50 trials, 3/5/7 with 5 trials} x backtracking {(0,0),(1,3),(2,10)}, each with a window of 32 (128) consecutive seeds starting at VERIF_SEED*64, every run executed twice (determinism); PEG: rows 1..6(8) x cols 1..10(14) x wc 1..4 (including wc > rows) x the same seeds with the edge rule replayed edge by edge against the harness's own BFS on the partial graph; seed search: on every 13th (5th) configuration the per-seed outcome set of a 24-seed window is computed exhaustively, then search() is run under rayon pools of 1, 2, 4 and 16 threads (3 repetitions) on the whole window and on windows ending just before / just at the first successful seed. Non-trivial = successful construction (all invariants checked) / search with more than one admissible answer.".into(),
+            rule: "MacKay-Neal: rows 2..6(8) x cols 2..10(14) x wc 1..3 x wr in {ceil(cols*wc/rows), +1, cols} x {Random, Uniform} x min girth {None, 4/6/8 with 0/5/50 trials, 3/5/7 with 5 trials} x backtracking {(0,0),(1,3),(2,10)}, each with a window of 32 (128) consecutive seeds starting at VERIF_SEED*64, every run executed twice (determinism); PEG: rows 1..6(8) x cols 1..10(14) x wc 1..4 (including wc > rows) x the same seeds with the edge rule replayed edge by edge against the harness's own BFS on the partial graph; seed search: on every 13th (5th) configuration the per-seed outcome set of a 24-seed window is computed exhaustively, then search() is run under rayon pools of 1, 2, 4 and 16 threads (3 repetitions) on the whole window and on windows ending just before / just at the first successful seed; where at least half of the window succeeds also with try counts of 2^32, 2^32+1 and 2^33+5 (a count beyond 32 bits). Non-trivial = successful construction (all invariants checked) / search with more than one admissible answer.".into(),
             exhaustive: true,
             extra,
             graph: None,
